@@ -238,10 +238,14 @@ def root_options(P, path: Path) -> dict:
     return o
 
 
-def do_compile(root: Path, out: Path, auto_pad, import_coredefs, cwd=None, validate_alignment=True):
-    """the real pyrtma.compile.compile, every output, CLI order. returns (exc or None, {lang: text|None})"""
+def do_compile(root: Path, out: Path, auto_pad, import_coredefs, cwd=None, validate_alignment=True, out_arg=None):
+    """the real pyrtma.compile.compile, every output, CLI order. returns (exc or None, {lang: text|None})
+    out: where the outputs end up (absolute); out_arg: the -o argument as given to the compiler (default: str(out);
+    may be relative to cwd, ".", or "" = the compiler's default, the directory of the root file)"""
     from pyrtma.compile import compile as rtma_compile
     out.mkdir(parents=True, exist_ok=True)
+    if out_arg is None:
+        out_arg = str(out)
     old = os.getcwd()
     exc = None
     buf = io.StringIO()
@@ -252,7 +256,7 @@ def do_compile(root: Path, out: Path, auto_pad, import_coredefs, cwd=None, valid
             logging.disable(logging.CRITICAL)
             try:
                 with watchdog("compile", T_COMPILE):
-                    rtma_compile([str(root)], str(out), "gen", python=True, javascript=True, matlab=True, c_lang=True,
+                    rtma_compile([str(root)], out_arg, "gen", python=True, javascript=True, matlab=True, c_lang=True,
                                  combined=True, auto_pad=auto_pad, import_coredefs=import_coredefs,
                                  validate_alignment=validate_alignment)
             finally:
@@ -511,6 +515,30 @@ def run_case(case):
                 det["file_link"] = dict(exc=e3, outs=o3)
             except OSError as e:
                 det["links_error"] = "%s: %s" % (type(e).__name__, e)
+            # the same closure with the output directory named in different ways: relative with one and with two
+            # components (from two different cwds), `.` from inside the output directory, and the compiler's default
+            # (no -o: next to the root file).  All against the first compile (absolute -o).
+            det["outdirs"] = {}
+            try:
+                w1 = d / "wd1"
+                (w1 / "out_rel").mkdir(parents=True)
+                e, o = do_compile(src2 / case["root"], w1 / "out_rel", ap, core, cwd=str(w1), validate_alignment=val, out_arg="out_rel")
+                det["outdirs"]["relative -o with one component (`-o out_rel`)"] = dict(exc=e, outs=o)
+                w2 = d / "wd2" / "inner"
+                (w2 / "build" / "gen").mkdir(parents=True)
+                e, o = do_compile(src2 / case["root"], w2 / "build" / "gen", ap, core, cwd=str(w2), validate_alignment=val,
+                                  out_arg=os.path.join("build", "gen"))
+                det["outdirs"]["relative -o with two components (`-o build/gen`), another cwd"] = dict(exc=e, outs=o)
+                w3 = d / "wd3" / "outhere"
+                w3.mkdir(parents=True)
+                e, o = do_compile(src2 / case["root"], w3, ap, core, cwd=str(w3), validate_alignment=val, out_arg=".")
+                det["outdirs"]["`-o .` from inside the output directory"] = dict(exc=e, outs=o)
+                src4 = d / "s4"
+                write_files(src4, case["files"])
+                e, o = do_compile(src4 / case["root"], (src4 / case["root"]).parent, ap, core, cwd=str(cw), validate_alignment=val, out_arg="")
+                det["outdirs"]["default output directory (no -o: next to the root file)"] = dict(exc=e, outs=o)
+            except OSError as e:
+                det["outdirs_error"] = "%s: %s" % (type(e).__name__, e)
             src3 = d / "s3"
             write_files(src3, case["files"])
             o3 = d / "o3"
